@@ -106,6 +106,11 @@ func (p *Plenc) CodecForTypeRegistry(registry plenccodec.CodecRegistry, typ refl
 
 	switch typ.Kind() {
 	case reflect.Ptr:
+		if typ.Elem().Kind() == reflect.Map {
+			// Map codecs work with the map itself when writing, so cannot be
+			// wrapped like other codecs. A map is already a pointer.
+			return nil, fmt.Errorf("pointers to maps are not supported")
+		}
 		subc, err := p.CodecForTypeRegistry(registry, typ.Elem(), tag)
 		if err != nil {
 			return nil, err
